@@ -62,6 +62,12 @@ def make_primitive(F):
             path = env.path(a) if is_node(a) else None
             if path is None and is_node(a):
                 info["expr"] = _value_shape(a)
+            elif path is not None and path[0][0] == "$v" and len(path) == 1 and name in ("operator<<", "<<"):
+                # a local written out that was defined once from an expression without members (`const auto v = version.File();
+                # stream << v;`) is that expression
+                init = _single_def_init(env, path[0][1])
+                if init is not None and not any(x["k"] == "Member" and x.get("mk", "field") == "field" for x in walk(init)):
+                    path, info["expr"] = None, _value_shape(init)
         elif kind == "sync":
             if len(args) == 1:
                 size, ty = targ_size(n)
@@ -86,6 +92,30 @@ def make_primitive(F):
         return [Event(path, kind, info)]
 
     return prim
+
+
+def _single_def_init(env, vid):
+    d = getattr(env, "_single_defs", None)
+    if d is None:
+        d = {}
+        body = env.fn.get("body") or {}
+        assigned = set()
+        for n in walk(body):
+            t = n["l"] if n["k"] == "Assign" else (n["e"] if n["k"] == "Unary" and n["op"] in ("++", "--") else None)
+            if is_node(t) and t["k"] == "Ref":
+                assigned.add(t.get("id"))
+            if n["k"] in ("Call", "OpCall") and n.get("cls") in STREAMS and (n.get("short") or n.get("op")) in ("operator>>", ">>", "Sync", "read", "getline"):
+                for a in n.get("args", []):
+                    a = _peel(a)
+                    if is_node(a) and a["k"] == "Ref":
+                        assigned.add(a.get("id"))
+        for n in walk(body):
+            if n["k"] == "Decl":
+                for v in n.get("vars", []):
+                    if is_node(v.get("init")) and v["id"] not in assigned:
+                        d[v["id"]] = v["init"]
+        env._single_defs = d
+    return d.get(vid)
 
 
 def _value_shape(e):
